@@ -141,7 +141,31 @@ SPEC = dict(
     closed_world=[dict(file=B, members=['phase_', 'recursion_', 'safe_cb_holder_'],
                        allow=[r', recursion_\(state\.recursion_\) \{', r'uint16_t& recursion_;', r'uint16_t recursion_\{0\};', r'phase phase_\{starting\};',
                               r'_safe_cb_base::holder safe_cb_holder_\{nullptr\};'])],
-    units=[],
+    units=[
+        dict(name='op_set_value', harness='h_op_set_value', enforce='op_set_value', props=['C19']),
+        dict(name='op_set_error', harness='h_op_set_error', enforce='op_set_error', props=['C19']),
+        dict(name='op_set_done', harness='h_op_set_done', enforce='op_set_done', props=['C19']),
+        dict(name='op_safe_cb_holder', harness='h_op_safe_cb_holder', enforce='op_safe_cb_holder', props=['C19']),
+        dict(name='op_complete', harness='h_op_complete', enforce='op_complete', props=['C19', 'C02']),
+        dict(name='op_callback_impl', harness='h_op_callback_impl', enforce='op_callback_impl', props=['C19', 'C02']),
+        dict(name='op_start', harness='h_op_start', enforce='op_start', defines=['VF_START_BODY_DOES_NOT_THROW'], props=['C19', 'C02']),
+        dict(name='op_start_body_throws', harness='h_op_start', enforce='op_start', tier='thorough', props=['C19', 'C02']),
+        dict(name='stop_callback', harness='h_stop_callback', enforce='stop_callback_call', props=['C19', 'C02']),
+        dict(name='op_dtor', harness='h_op_dtor', enforce='op_dtor', props=['C19', 'C02']),
+        dict(name='safe_callback_expired', harness='h_safe_callback', enforce='safe_callback_call', defines=['VF_STUB_CALLBACK_IMPL', 'VF_CELL_EXPIRED'], props=['C19', 'C02']),
+        dict(name='safe_callback_live', harness='h_safe_callback', enforce='safe_callback_call', defines=['VF_STUB_CALLBACK_IMPL', 'VF_OP_PROTECTED'], props=['C19']),
+        dict(name='safe_callback_race', harness='h_safe_callback', enforce='safe_callback_call', defines=['VF_STUB_CALLBACK_IMPL'], tier='thorough', props=['C19', 'C02']),
+        dict(name='unsafe_callback', harness='h_unsafe_callback', enforce='unsafe_callback_call', defines=['VF_STUB_CALLBACK_IMPL'], props=['C19']),
+        dict(name='wrapper_complete', harness='h_wrapper_complete', enforce='wrapper_complete', props=['C19']),
+        dict(name='raw_connect_rvalue', harness='h_raw_connect_rvalue', enforce='raw_connect_rvalue', props=['C19']),
+        dict(name='raw_connect_lvalue', harness='h_raw_connect_lvalue', enforce='raw_connect_lvalue', props=['C19']),
+        dict(name='lop_plain_start', harness='h_lop_plain_start', enforce='lop_plain_start', props=['C19']),
+        dict(name='lop_evt_start', harness='h_lop_evt_start', enforce='lop_evt_start', props=['C19']),
+        dict(name='lop_evt_stop', harness='h_lop_evt_stop', enforce='lop_evt_stop', props=['C19']),
+        dict(name='lemma_basic_protocol', harness='lemma_basic_protocol', mode='lemma', props=['C19', 'C02']),
+        dict(name='lemma_basic_rely', harness='lemma_basic_rely', mode='lemma', props=['C19']),
+        dict(name='lemma_basic_init', harness='lemma_basic_init', mode='lemma', props=['C19']),
+    ],
     assumptions=[],
     drops=[],
 )
